@@ -36,15 +36,29 @@ LOCAL_APPLY = {
 
 
 def code_facts(path):
-    """code name -> True/False for every `CODE in changes` decided on the
-    path."""
+    """code name -> True/False for every test "is CODE among the changes"
+    decided on the path, however it is spelt: `CODE in changes`, or
+    `changes.get(CODE)` compared with None / tested for truth."""
     out = {}
     for e in path.events:
-        if e.kind == 'assume':
-            c, neg = (e.cond[1], True) if e.cond[0] == 'not' \
-                else (e.cond, False)
-            if c[0] == 'in' and cm.enum_name(c[1]):
-                out[cm.enum_name(c[1])] = not neg
+        if e.kind != 'assume':
+            continue
+        c, neg = (e.cond[1], True) if e.cond[0] == 'not' \
+            else (e.cond, False)
+        if c[0] == 'in' and cm.enum_name(c[1]):
+            out[cm.enum_name(c[1])] = not neg
+            continue
+        g = None
+        present_when = True
+        if c[0] == 'is' and T.NONE in (c[1], c[2]):
+            g = c[2] if c[1] == T.NONE else c[1]
+            present_when = False            # `x is None` true => absent
+        elif c[0] == 'truth':
+            g = c[1]
+        if g is not None and g[0] == 'call' and g[1].endswith('.get') and \
+                len(g[2]) >= 2 and cm.enum_name(g[2][1]):
+            truth = not neg
+            out[cm.enum_name(g[2][1])] = truth if present_when else not truth
     return out
 
 
@@ -67,6 +81,8 @@ def check_apply(ctx, eng, qual, table, side):
             seen[code] = True
             for owner, attr in targets:
                 if owner == 'call':
+                    # (the callee is an anchor: gone = cannot decide)
+                    eng.m.func('connection.H2Connection.' + attr)
                     cs = cm.calls_to(p, attr)
                     a = [cm.show0(x) for x in cs[0].args] if cs else []
                     if len(a) != 2 or not a[0].endswith('.original_value') \
@@ -125,12 +141,15 @@ def check_apply(ctx, eng, qual, table, side):
 
 
 def _changes_key(term):
-    """for changes[K].x return K"""
+    """for changes[K].x or changes.get(K).x return K"""
     t = term
     while t is not None and t[0] == 'a':
         t = t[1]
     if t is not None and t[0] == 'sub':
         return t[2]
+    if t is not None and t[0] == 'call' and t[1].endswith('.get') and \
+            len(t[2]) >= 2:
+        return t[2][1]
     return None
 
 
